@@ -32,5 +32,5 @@ set +e
 "$@"
 rc=$?
 rm -rf "$D"
-rm -f "$VERIF_ROOT"/.build/bin/*-x*
+rm -f "$VERIF_ROOT"/.build/bin/*-x"$(echo "$VERIF_EXTRA_OVERLAY" | md5sum | cut -c1-8)"; rm -rf "$VERIF_ROOT"/.build/ov-x"$(echo "$VERIF_EXTRA_OVERLAY" | md5sum | cut -c1-8)"
 exit $rc
